@@ -276,30 +276,40 @@ def empty(u: Unit):
 MIXED_REPLAY = lambda w: {"code": """
 import numpy as np, verif_probes as VP
 VIOLATED, DETAIL = False, 'array charge converted to clusters stays in its own pixel'
-for rows, cols in ((3, 5), (6, 4), (4, 4), (2, 7)):
-    det = VP.detector(rows=rows, cols=cols)
+for rows, cols, pv, ph in ((3, 5, 1.0, 1.0), (6, 4, 10.0, 20.0), (4, 4, 18.0, 12.0), (2, 7, 0.5, 3.0)):
+    det = VP.detector(rows=rows, cols=cols, pixel_vert_size=pv, pixel_horz_size=ph)
     ch = det.charge
     a = np.arange(rows * cols, dtype=float).reshape(rows, cols) + 1.0
     a[0, 0] = 0.0
     ch.add_charge_array(a.copy())
     k = 1
-    ch.add_charge(particle_type='e', particles_per_cluster=np.array([100.0]), init_energy=np.zeros(k), init_ver_position=np.array([0.5]), init_hor_position=np.array([1.5]),
+    ch.add_charge(particle_type='e', particles_per_cluster=np.array([100.0]), init_energy=np.zeros(k), init_ver_position=np.array([0.5 * pv]), init_hor_position=np.array([1.5 * ph]),
                   init_z_position=np.zeros(k), init_ver_velocity=np.zeros(k), init_hor_velocity=np.zeros(k), init_z_velocity=np.zeros(k))
     want = a.copy(); want[0, 1] += 100.0
     got = ch.array
     if not np.array_equal(got, want):
         VIOLATED, DETAIL = True, f'{rows}x{cols}: array then one cluster: total {got.sum()} expected {want.sum()}; differing pixels {np.argwhere(got != want)[:4].tolist()}'
         break
-    det2 = VP.detector(rows=rows, cols=cols)
+    det2 = VP.detector(rows=rows, cols=cols, pixel_vert_size=pv, pixel_horz_size=ph)
     c2 = det2.charge
-    c2.add_charge(particle_type='e', particles_per_cluster=np.array([100.0]), init_energy=np.zeros(k), init_ver_position=np.array([0.5]), init_hor_position=np.array([1.5]),
+    c2.add_charge(particle_type='e', particles_per_cluster=np.array([100.0]), init_energy=np.zeros(k), init_ver_position=np.array([0.5 * pv]), init_hor_position=np.array([1.5 * ph]),
                   init_z_position=np.zeros(k), init_ver_velocity=np.zeros(k), init_hor_velocity=np.zeros(k), init_z_velocity=np.zeros(k))
     c2.add_charge_array(a.copy())
     got2 = c2.array
     if not np.array_equal(got2, want):
         VIOLATED, DETAIL = True, f'{rows}x{cols}: one cluster then array: total {got2.sum()} expected {want.sum()}; differing pixels {np.argwhere(got2 != want)[:4].tolist()}'
         break
-""", "expect": "per-pixel charge = sum of everything added, whatever the interleaving of arrays and clusters"}
+if not VIOLATED:
+    # a stored array with entries of both signs whose total is not positive (zero-mean map, +q / -q): its non-negative entries survive the first cluster
+    for a in (np.array([[5.0, -7.0, 0.0], [1.0, -1.0, 0.0]]), np.array([[2.0, -2.0, 0.0], [0.0, 0.0, 0.0]]), np.array([[0.5, 0.25, -3.0], [0.0, 1.0, -1.0]])):
+        det = VP.detector(rows=2, cols=3)
+        det.charge.add_charge_array(a.copy())
+        det.charge.add_charge(particle_type='e', particles_per_cluster=np.array([100.0]), init_energy=np.zeros(1), init_ver_position=np.array([1.5]), init_hor_position=np.array([2.5]),
+                              init_z_position=np.zeros(1), init_ver_velocity=np.zeros(1), init_hor_velocity=np.zeros(1), init_z_velocity=np.zeros(1))
+        want = np.clip(a, 0.0, None); want[1, 2] += 100.0
+        if not np.array_equal(det.charge.array, want):
+            VIOLATED, DETAIL = True, f'array {a.tolist()} (total {a.sum()}) then one cluster of 100 in pixel (1, 2): charge {det.charge.array.tolist()}, expected {want.tolist()}'; break
+""", "expect": "per-pixel charge = sum of everything (non-negative) added, whatever the interleaving of arrays and clusters"}
 
 
 @unit("C14", "array_to_df")
@@ -458,6 +468,10 @@ def mixed_routing(u: Unit):
                         and frame.info.get("label") == "concat"
                 else:
                     ok = frame is h["new"]
+                    # the stored array is dropped on this route: allowed only when EVERY entry is zero (whatever the signs of the others)
+                    g = (D.GEN[0], D.GEN[1])
+                    u.oblige(p, f"mixed.routing[{tag}].array_dropped_only_if_all_zero", to_real(p.st.cell(h["old_array"]).elem(g)) == 0,
+                             {"stored array": "not all zero (entries of both signs allowed)", "route": "stored array not converted"}, rp)
             else:
                 ok = not conv and not cc and frame is h["new"]
             u.oblige(p, f"mixed.routing[{tag}]", bool(ok), {}, rp)
